@@ -165,6 +165,19 @@ def equivariance_case(case):
             if np.abs(D1 - D0).max() > 1e-7 * sc:
                 v.append(violation("gradient_not_equivariant", {"P": P, "sigma": sig, "tau": tau, "expected": E, "got": G1}, **where))
                 break
+    # the reordered problem handed over in another memory layout (Fortran order, a strided view) is the same problem
+    sig, tau = list(range(n))[::-1], list(range(K))[::-1]
+    E = G0[sig][:, tau]
+    Pp = P[sig][:, tau]
+    big = np.zeros((2 * n, 2 * K))
+    big[::2, ::2] = Pp
+    for lname, Pl in (("fortran", np.asfortranarray(Pp)), ("strided_view", big[::2, ::2])):
+        Al = None if A is None else np.asfortranarray(_permA(A, sig))
+        s1, G1 = g(Pl, Al, return_grad=True)
+        nev += 1
+        if abs(float(s1) - float(s0)) > 1e-9 * max(1.0, abs(float(s0))) or \
+                np.abs((np.asarray(G1) - np.asarray(G1).mean(1, keepdims=True)) - (E - E.mean(1, keepdims=True))).max() > 1e-7 * sc:
+            v.append(violation("gradient_not_equivariant", {"P": P, "layout": lname, "sigma": sig, "tau": tau, "expected": E, "got": G1}, layout=lname, **where))
     # the same reordering done by the caller IN PLACE on the affinity array it had already passed (same object, permuted content)
     if A is not None and n > 1:
         sig = list(range(1, n)) + [0]
